@@ -203,6 +203,10 @@ func c12(r *core.Run) {
 	r.Knob("access_preemption_den", accessDen)
 	e := newEnv(r, sched.Config{SwitchDen: []int{1, 1, 2, 3}[src.Intn(4)], AccessDen: accessDen}, memfs.Cred{})
 	e.w.RaceOn()
+	if auto && src.Bool(1, 6) {
+		e.w.FS.MaxQueuedEvents = 3 + src.Intn(6) // event loss by queue overflow: exercises the watcher's error path
+		r.Knob("max_queued_events", e.w.FS.MaxQueuedEvents)
+	}
 	specS := c12Spec("S", "d0")
 	specT := c12Spec("T", "d2")
 	specA := c12Spec("A", "d0", "d1")
